@@ -185,3 +185,28 @@ pub fn cases(args: &[String]) {
         }
     }
 }
+
+
+/// C15 / C11: sources over MORE than 4 GiB (zeroed pages, only the first and last few are touched): the three
+/// sources must decode the same primitives at the start, in the middle and at the very end.
+pub fn huge(_args: &[String]) {
+    let n: usize = (1usize << 32) + 2;
+    let mut data = vec![0u8; n];
+    data[0] = 0x80;
+    data[1] = 0x80;
+    data[2] = 0x01; // var_u32 16384
+    data[n - 3] = 0xff;
+    data[n - 2] = 0xff;
+    data[n - 1] = 0x03; // var_u32 65535 ending exactly at the end
+    fn probe<I: BinaryInput>(mut i: I, n: usize) -> String {
+        let a = i.read_var_u32().map_err(|e| crate::dynval::err_class(&e));
+        let b = i.read_u16().map_err(|e| crate::dynval::err_class(&e));
+        let s = i.skip(n - 3 - 3 - 2).map_err(|e| crate::dynval::err_class(&e));
+        let c = i.read_var_u32().map_err(|e| crate::dynval::err_class(&e));
+        let d = i.read_u8().map_err(|e| crate::dynval::err_class(&e));
+        format!("{a:?} {b:?} {s:?} {c:?} {d:?}")
+    }
+    println!("HUGE slice {}", probe(SliceInput::new(&data), n));
+    println!("HUGE context {}", probe(DeserializationContext::new(&data), n));
+    println!("HUGE owned {}", probe(OwnedInput::new(data), n));
+}
